@@ -583,7 +583,8 @@ fn snap_cert(s: &mut Snap, who: &str, p: &str, c: &TbsCert, as_countable: bool) 
 
 #[derive(Clone, Debug, Serialize, Deserialize)]
 pub struct CertCase {
-    /// 0 trust anchor, 1 CA, 2 EE, 3 router
+    /// 0 trust anchor, 1 CA, 2 EE, 3 router, 4 detached EE (signed objects kept outside the
+    /// repository; the signedObject SIA is optional and present iff `ta_aki`)
     pub kind: u8,
     pub issuer_key: u8,
     pub subject_key: u8,
@@ -611,7 +612,7 @@ pub struct CertCase {
 
 fn cert_strategy(_: Tier) -> BoxedStrategy<CertCase> {
     (
-        (prop::sample::select(vec![0u8, 1, 1, 2, 2, 3]), 0u8..8, 1u8..8, serial_strategy(), name_strategy(), name_strategy()),
+        (prop::sample::select(vec![0u8, 1, 1, 2, 2, 3, 4]), 0u8..8, 1u8..8, serial_strategy(), name_strategy(), name_strategy()),
         (window_strategy(), any::<bool>(), any::<bool>(), any::<bool>(), any::<bool>()),
         (res_strategy(true, true), res_strategy(false, true), res_strategy(true, true)),
         (rsync_strategy(None), rsync_strategy(None), rsync_strategy(None), rsync_strategy(None), rsync_strategy(None), prop::option::of(https_strategy())),
@@ -666,8 +667,8 @@ fn cert_strategy(_: Tier) -> BoxedStrategy<CertCase> {
 
 fn run_cert(c: &CertCase, obs: &mut Obs) -> CheckResult {
     let signer = PoolSigner::new();
-    let kind = c.kind % 4;
-    obs.label(["cert-ta", "cert-ca", "cert-ee", "cert-router"][kind as usize]);
+    let kind = c.kind % 5;
+    obs.label(["cert-ta", "cert-ca", "cert-ee", "cert-router", "cert-detached-ee"][kind as usize]);
     let fams = [&c.v4, &c.v6, &c.asn].iter().filter(|r| r.present()).count();
     let entries = c.v4.entries().max(c.v6.entries()).max(c.asn.entries());
     obs.nontrivial_if(fams >= 2 || entries >= 2);
@@ -726,6 +727,11 @@ fn run_cert(c: &CertCase, obs: &mut Obs) -> CheckResult {
                 }
             }
             2 => tbs.set_signed_object(Some(rsync(&c.signed_object)?)),
+            4 => {
+                if c.ta_aki {
+                    tbs.set_signed_object(Some(rsync(&c.signed_object)?))
+                }
+            }
             _ => tbs.set_extended_key_usage(Some(ExtendedKeyUsage::create_router())),
         }
         if kind == 0 {
@@ -783,6 +789,7 @@ fn run_cert(c: &CertCase, obs: &mut Obs) -> CheckResult {
             0 => decoded.clone().validate_ta_at(TalInfo::from_name("c05".into()).into_arc(), c.strict, now).map(|_| ()).map_err(|e| e.to_string()),
             1 => decoded.clone().validate_ca_at(&issuer(c.issuer_key as usize)?, c.strict, now).map(|_| ()).map_err(|e| e.to_string()),
             2 => decoded.clone().validate_ee_at(&issuer(c.issuer_key as usize)?, c.strict, now).map(|_| ()).map_err(|e| e.to_string()),
+            4 => decoded.clone().validate_detached_ee_at(&issuer(c.issuer_key as usize)?, c.strict, now).map(|_| ()).map_err(|e| e.to_string()),
             _ => decoded.validate_router_at(&issuer(c.issuer_key as usize)?, c.strict, now).map_err(|e| e.to_string()),
         })
     })??;
@@ -902,6 +909,44 @@ fn run_crl(c: &CrlCase, obs: &mut Obs) -> CheckResult {
         .map_err(|e| Fail::new(format!("signing failed: {}", e)))
     })??;
     let der = no_panic("Crl::to_captured", || built.to_captured().into_bytes().to_vec())?;
+    // the same list built a second time: constructor fed with decoy values, every field then put
+    // right through its setter (signatures are deterministic, so the two must be identical)
+    {
+        let via_setters = no_panic("CRL builder (setters)", || -> Result<Vec<u8>, Fail> {
+            let decoy_key = signer.info((c.issuer_key as usize + 1) % POOL_SIZE);
+            let mut t = TbsCertList::new(
+                Default::default(),
+                decoy_key.to_subject_name(),
+                time_s(c.next_update)?,
+                time_s(c.this_update)?,
+                vec![CrlEntry::new(Serial::from(77u64), time_s(c.this_update)?)],
+                decoy_key.key_identifier(),
+                Serial::from(4711u64),
+            );
+            t.set_signature(Default::default());
+            t.set_issuer(name.clone());
+            t.set_this_update(time_s(c.this_update)?);
+            t.set_next_update(time_s(c.next_update)?);
+            if c.entries.len() % 2 == 0 {
+                t.set_revoked_certs(entries.clone());
+            } else {
+                let l = t.revoked_certs_mut();
+                l.clear();
+                l.extend(entries.iter().cloned());
+            }
+            t.set_authority_key_identifier(issuer_pub.key_identifier());
+            t.set_crl_number(serial_of(&c.crl_number)?);
+            ensure!(
+                *t.issuer() == name && t.this_update() == time_s(c.this_update)? && t.next_update() == time_s(c.next_update)?
+                    && *t.authority_key_identifier() == issuer_pub.key_identifier() && t.crl_number() == serial_of(&c.crl_number)?
+                    && t.revoked_certs().len() == entries.len(),
+                "TbsCertList getters do not return what the setters were given"
+            );
+            let crl = t.into_crl(&signer, &signer.key(c.issuer_key as usize)).map_err(|e| Fail::new(format!("signing failed: {}", e)))?;
+            Ok(crl.to_captured().into_bytes().to_vec())
+        })??;
+        ensure_sig!(via_setters == der, "c05:crl:setters", "a CRL built through TbsCertList::new differs from the same CRL built through the setters ({} vs {} octets)", der.len(), via_setters.len());
+    }
     let decoded = match no_panic("Crl::decode", || Crl::decode(der.as_slice()))? {
         Ok(d) => d,
         Err(e) => return Err(Fail::sig("c05:crl:decode", format!("built CRL does not decode: {}", e))),
@@ -1247,13 +1292,65 @@ fn run_roa(c: &RoaCase, obs: &mut Obs) -> CheckResult {
     obs.label_if(c.ee.window.wide(), "processed");
     let signer = ee_signer(&c.ee);
     let built = no_panic("ROA builder", || -> Result<Roa, Fail> {
-        let mut b = RoaBuilder::new(Asn::from_u32(c.asn));
-        for &(a, len, ml) in &c.v4 {
-            b.push_v4_addr(Ipv4Addr::from(a), len, ml);
+        // the prefixes reach the builder through one of its public routes (chosen by the AS
+        // number, so it is part of the case); all of them must build the same attestation
+        use rpki::repository::roa::{RoaIpAddress, RoaIpAddressesBuilder};
+        use std::net::IpAddr;
+        let asn = Asn::from_u32(c.asn);
+        let a4: Vec<RoaIpAddress> = c.v4.iter().map(|&(a, len, ml)| RoaIpAddress::new_addr(IpAddr::V4(Ipv4Addr::from(a)), len, ml)).collect();
+        let a6: Vec<RoaIpAddress> = c.v6.iter().map(|&(a, len, ml)| RoaIpAddress::new_addr(IpAddr::V6(Ipv6Addr::from(a.0)), len, ml)).collect();
+        let mut b = RoaBuilder::new(asn);
+        match c.asn % 6 {
+            0 => {
+                for &(a, len, ml) in &c.v4 {
+                    b.push_v4_addr(Ipv4Addr::from(a), len, ml);
+                }
+                for &(a, len, ml) in &c.v6 {
+                    b.push_v6_addr(Ipv6Addr::from(a.0), len, ml);
+                }
+            }
+            1 => {
+                a4.iter().for_each(|x| b.push_v4(*x));
+                a6.iter().for_each(|x| b.push_v6(*x));
+            }
+            2 => {
+                // in two portions each, so that extending an already filled list is covered
+                b.extend_v4_from_slice(&a4[..a4.len() / 2]);
+                b.extend_v6_from_slice(&a6[..a6.len() / 2]);
+                b.extend_v4_from_slice(&a4[a4.len() / 2..]);
+                b.extend_v6_from_slice(&a6[a6.len() / 2..]);
+            }
+            3 => {
+                // interleaved, family decided by the address
+                let (mut i, mut j) = (0, 0);
+                while i < c.v4.len() || j < c.v6.len() {
+                    if i < c.v4.len() {
+                        let (a, len, ml) = c.v4[i];
+                        b.push_addr(IpAddr::V4(Ipv4Addr::from(a)), len, ml);
+                        i += 1;
+                    }
+                    if j < c.v6.len() {
+                        let (a, len, ml) = c.v6[j];
+                        b.push_addr(IpAddr::V6(Ipv6Addr::from(a.0)), len, ml);
+                        j += 1;
+                    }
+                }
+            }
+            4 => {
+                a4.iter().for_each(|x| b.v4_mut().push(*x));
+                b.v6_mut().extend_from_slice(&a6);
+            }
+            _ => {
+                let (mut l4, mut l6) = (RoaIpAddressesBuilder::new(), RoaIpAddressesBuilder::new());
+                for &(a, len, ml) in &c.v4 {
+                    l4.push_addr(IpAddr::V4(Ipv4Addr::from(a)), len, ml);
+                }
+                l6.extend_from_slice(&a6);
+                b = RoaBuilder::with_addresses(Asn::from_u32(!c.asn), l4, l6);
+                b.set_as_id(asn);
+            }
         }
-        for &(a, len, ml) in &c.v6 {
-            b.push_v6_addr(Ipv6Addr::from(a.0), len, ml);
-        }
+        ensure!(b.as_id() == asn, "RoaBuilder::as_id() = {} after construction with {}", b.as_id(), asn);
         b.finalize(sigobj_builder(&c.ee)?, &signer, &signer.key(c.ee.issuer_key as usize))
             .map_err(|e| Fail::new(format!("signing failed: {}", e)))
     })??;
@@ -1665,7 +1762,7 @@ pub fn property() -> Property {
         ],
         subs: vec![
             PropSub { name: "cert", strategy: cert_strategy, cases: |t| t.pick(48_000, 500_000), run: run_cert,
-                floors: &[("cert-ta", 0.08), ("cert-ca", 0.15), ("cert-ee", 0.15), ("cert-router", 0.08), ("blocks>=2", 0.3), ("inherit", 0.1), ("generalized-time", 0.2), ("utc-time", 0.2)] }.boxed(),
+                floors: &[("cert-ta", 0.08), ("cert-ca", 0.15), ("cert-ee", 0.15), ("cert-router", 0.08), ("cert-detached-ee", 0.08), ("blocks>=2", 0.3), ("inherit", 0.1), ("generalized-time", 0.2), ("utc-time", 0.2)] }.boxed(),
             PropSub { name: "crl", strategy: crl_strategy, cases: |t| t.pick(18_000, 150_000), run: run_crl,
                 floors: &[("revoked-0", 0.05), ("revoked-2..7", 0.3), ("revoked-8..300", 0.05)] }.boxed(),
             PropSub { name: "manifest", strategy: mft_strategy, cases: |t| t.pick(18_000, 150_000), run: run_mft,
